@@ -293,7 +293,7 @@ func realCrash(c *vm.Ctx, r *vm.Rand, idx int) {
 		c.Inconclusive("strace not available")
 		return
 	}
-	path := filepath.Join(c.OutDir, fmt.Sprintf("crash.%d.%d.mca", c.Shard, idx))
+	path := filepath.Join(c.OutDir, fmt.Sprintf("crash.%s.%d.%d.mca", c.Mode, c.Shard, idx))
 	os.Remove(path)
 	if err := os.WriteFile(path, nil, 0o666); err != nil {
 		c.Inconclusive("cannot create " + path)
